@@ -479,7 +479,16 @@ fn main() {
                 // the set as it should be: every traverser node of the tree with this bucket
                 let first = info.roots()[0].index().index();
                 let roots: Vec<usize> = groups.get(&d.bucket[first]).cloned().unwrap_or_else(|| vec![first]);
-                let cf = { profile.read().unwrap().counterfactual(info) };
+                let cf = {
+                    let p = profile.read().unwrap();
+                    match catch(std::panic::AssertUnwindSafe(|| p.counterfactual(info))) {
+                        Some(cf) => cf,
+                        None => {
+                            check_set(&mut run, &d, &v, &va, &roots, None, &format!("epoch {epoch} tree {tree_no}"), chosen.contains(&ix), false);
+                            continue;
+                        }
+                    }
+                };
                 let real: BTreeMap<u8, f32> = cf.regret().inner().iter().map(|(e, r)| (u8::from(*e), *r)).collect();
                 if mode == 2 {
                     run.spec_checked += 1;
